@@ -120,6 +120,10 @@ LINK_KINDS_ALL = [("png", "1x1"), ("jpeg", "640x480"), ("gif", "3x2")]
 GONE_FORMATS = ("docx", "pptx", "xlsx", "odt", "odp", "ods", "odg", "epub")
 GONE_KINDS_QUICK = [("png", "1x1"), ("jpeg", "640x480")]
 GONE_KINDS_ALL = [("png", "1x1"), ("jpeg", "640x480"), ("gif", "3x2")]
+NOREL_FORMATS = ("pptx", "xlsx")                        # one relationship part per unit (slide / sheet drawing), ids numbered per part:
+#   {"gone": mask, "how": "norel"} - the dangling anchor's r:embed id has NO relationship in the relationship part of its own slide /
+#   drawing (and its part is not stored), while the relationship parts of the other units define ids of the same spelling (rId1 ...).
+#   A relationship id means something only inside its own source part: the anchor is dangling, whatever other parts define.
 GONE_UID = 16                                           # payload id offset of the part a dangling anchor names (never stored)
 IMG_FORMATS = {"docx": ["png", "jpeg", "gif", "bmp"], "pptx": ["png", "jpeg", "gif", "bmp"], "xlsx": ["png", "jpeg", "gif", "bmp"],
                "odt": ["png", "jpeg", "gif", "bmp"], "odp": ["png", "jpeg", "gif", "bmp"], "ods": ["png", "jpeg", "gif", "bmp"],
@@ -238,6 +242,9 @@ def cases_for(tier, fmt):
                 for mask in itertools.product("01", repeat=n):
                     if "1" in mask and "0" in mask:
                         yield {"units": units, "ref": ref0, "var": "text", "gone": "".join(mask)}
+                        if fmt in NOREL_FORMATS:
+                            # ... and the same anchors dangling one step earlier: the relationship itself is missing
+                            yield {"units": units, "ref": ref0, "var": "text", "gone": "".join(mask), "how": "norel"}
     # file layouts of the image itself: every layout of 1..2 anchors over {the image in layout L, a plain 1x1 companion} that uses L
     companion = (IMG_FORMATS[fmt][0], "1x1")
     lays = LAY_QUICK if quick else LAY_ALL
@@ -441,21 +448,31 @@ def render(fmt, case, tk):
     raise ValueError(fmt)
 
 
-def _drop_members(data, payloads):
-    """the zip container without the members whose content is one of `payloads`; every payload must have been stored"""
+def _drop_members(data, payloads, norel=False):
+    """the zip container without the members whose content is one of `payloads`; every payload must have been stored.
+    norel: the Relationship elements that target a removed member are removed from every relationship part as well"""
+    import re
     import zipfile
     src = zipfile.ZipFile(io.BytesIO(data))
     out = io.BytesIO()
     hit = set()
+    gone_names = {zi.filename.rsplit("/", 1)[-1] for zi in src.infolist() if src.read(zi) in payloads}
+    cut = 0
     with zipfile.ZipFile(out, "w") as z:
         for zi in src.infolist():
             body = src.read(zi)
             if body in payloads:
                 hit.add(body)
                 continue
+            if norel and zi.filename.endswith(".rels"):
+                for nm in gone_names:
+                    body, k = re.subn(rb'<Relationship\b[^>]*Target="[^"]*/%s"[^>]*/>' % re.escape(nm).encode(), b"", body)
+                    cut += k
             z.writestr(zi, body, compress_type=zi.compress_type)
     if hit != set(payloads):
         raise RuntimeError("reference writer did not store %d of the parts that were to be removed" % (len(set(payloads)) - len(hit)))
+    if norel and cut < len(gone_names):
+        raise RuntimeError("no relationship found for %d of the removed parts" % (len(gone_names) - cut))
     return out.getvalue()
 
 
@@ -486,12 +503,12 @@ def _render_gone(fmt, case, tk):
     if fmt in ("docx", "pptx"):
         from verif.gen import ooxml
         doc = ["doc", {}, [["unit", para() + [["img", k] for k in row], {}] for row in keys]]
-        return _drop_members(getattr(ooxml, fmt)(doc, imgs, {"image_ref": "relative"}), set(ghosts.values()))
+        return _drop_members(getattr(ooxml, fmt)(doc, imgs, {"image_ref": "relative"}), set(ghosts.values()), case.get("how") == "norel")
     if fmt == "xlsx":
         from verif.gen import ooxml
         doc = ["doc", {}, [["sheet", tk.new("N"), [[["s", tk.new("C")], ["i", 5]], [["s", tk.new("C")], ["i", 7]]], {"images": list(row)}]
                            for row in keys]]
-        return _drop_members(ooxml.xlsx(doc, imgs, {"image_ref": "relative"}), set(ghosts.values()))
+        return _drop_members(ooxml.xlsx(doc, imgs, {"image_ref": "relative"}), set(ghosts.values()), case.get("how") == "norel")
     if fmt in ("odt", "odp", "odg", "ods"):
         import zipfile
         from verif.gen import odf
@@ -805,7 +822,7 @@ def outcome_class(fmt, case, obs, fails):
         return "raises"
     n = sum(len(u) for u in case["units"])
     if case.get("gone"):
-        return "%s/%s+gone n=%d gone=%d got=%d units=%d fails=%s" % (fmt, case["ref"], n, case["gone"].count("1"), len(obs["doc_images"]),
+        return "%s/%s+gone%s n=%d gone=%d got=%d units=%d fails=%s" % (fmt, case["ref"], "-" + case["how"] if case.get("how") else "", n, case["gone"].count("1"), len(obs["doc_images"]),
                                                                      len(obs["units"]), ",".join(sorted(c for c, _ in fails)))
     return "%s/%s n=%d got=%d units=%d tbl=%d fails=%s" % (fmt, case["ref"], n, len(obs["doc_images"]), len(obs["units"]), len(obs["doc_tables"]),
                                                          ",".join(sorted(c for c, _ in fails)))
@@ -921,7 +938,10 @@ def _shrinks_linked(case, mk="linked"):
         m = "".join(a[2] for a in anchors)
         if "1" not in m:
             return None
-        return {"units": _renumber([[a[1] for a in anchors if a[0] == ui] for ui in range(nunits)]), "ref": ref, "var": var, mk: m}
+        d = {"units": _renumber([[a[1] for a in anchors if a[0] == ui] for ui in range(nunits)]), "ref": ref, "var": var, mk: m}
+        if case.get("how"):
+            d["how"] = case["how"]
+        return d
     cands = []
     if len(units) == 2:
         for keep in (0, 1):
@@ -1058,7 +1078,7 @@ def embeds(small, big):
     if "linked" in small:
         return "linked" in big and small["ref"] == big["ref"] and _embeds_linked(small, big)
     if "gone" in small:
-        return "gone" in big and small["ref"] == big["ref"] and _embeds_linked(small, big, "gone")
+        return "gone" in big and small["ref"] == big["ref"] and small.get("how") == big.get("how") and _embeds_linked(small, big, "gone")
     if "linked" in big:
         # a shape without links explains a package with links through its embedded anchors alone
         big = {"units": embedded_units(big), "ref": "plain", "var": big.get("var", "text")}
